@@ -13,7 +13,7 @@ def flush():
     for t in ("nat", "mangle", "raw"):
         sh("iptables -t %s -F; iptables -t %s -X" % (t, t))
 def listen(port, addr="0.0.0.0"):
-    s = socket.socket(); s.setsockopt(socket.SOL_SOCKET, socket.SO_REUSEADDR, 1); s.bind((addr, port)); s.listen(8); s.settimeout(2)
+    s = socket.socket(); s.setsockopt(socket.SOL_SOCKET, socket.SO_REUSEADDR, 1); s.bind((addr, port)); s.listen(8)  # no accept timeout: a slow host must not kill the listener (daemon thread)
     def run():
         try:
             while True:
@@ -21,7 +21,7 @@ def listen(port, addr="0.0.0.0"):
         except Exception: pass
     threading.Thread(target=run, daemon=True).start(); return s
 def connect(addr, port):
-    c = socket.socket(); c.settimeout(1)
+    c = socket.socket(); c.settimeout(3)
     try:
         c.connect((addr, port)); d = c.recv(16).decode(); c.close(); return "answered-by-" + d
     except Exception as e:
